@@ -156,6 +156,12 @@ class G:
             metas.append(self.proc_meta(i))
         if r.random() < 0.35:
             metas.append(self.rec_meta(len(metas)))
+        if r.random() < 0.2:
+            a = self.rec_meta(len(metas))
+            b = self.rec_meta(len(metas) + 1)
+            b["fm"] = b["fm"][:1]
+            a["mutual"], b["mutual"] = b, a
+            metas += [a, b]
         self.procs = metas
         main = {"kind": "proc", "name": "main", "formals": [], "locals": [], "body": None, "idx": -1, "fm": []}
         bodies = []
@@ -548,6 +554,13 @@ class G:
         n = m["fm"][0][1]
         c = self.ctx(m)
         base = self.int_expr(c, 2)
+        if m.get("mutual"):
+            base = self.int_leaf(c) if False else ("num", self.r.randrange(0, 9))   # no calls in the base case: it must terminate
+            o = m["mutual"]
+            args = [("bin", "-", ("var", n), ("num", 1))] + [("num", r.randrange(5)) for _ in o["fm"][1:]]
+            step = ("bin", "+", ("call", o["name"], args), ("num", r.choice([1, 2])))
+            cond = ("bin", "<=", ("var", n), ("num", 0))
+            return ("if", cond, ("ret", base), ("ret", step))
         inner = ("call", m["name"], [("bin", "-", ("var", n), ("num", 1))] + [("var", f[1]) for f in m["fm"][1:]])
         form = r.choice(["plus", "plusn", "nest", "twice"])
         if form == "plus":
